@@ -443,7 +443,15 @@ impl Run {
             let r = loop {
                 let r = block_on(async { uri.as_str().provision_backend(method_of(&key), if key["pass"].is_null() { PassKey::empty() } else { passkey(&key) }, Some(P0.to_string()), true).await });
                 match &r {
-                    Err(e) if attempt < 20 && pool_busy(e) => { attempt += 1; std::thread::sleep(std::time::Duration::from_millis(20 * attempt)); }
+                    // set-up noise of the fresh pool, as in C08 / C18: SQLITE_BUSY while its first connections switch the journal mode,
+                    // or SQLITE_IOERR_DELETE_NOENT while they race to delete the previous store's `-wal` file (provisioning removes
+                    // the main file only) — "Error creating database pool"; a recreating provision is simply repeated
+                    Err(e) if attempt < 20 && format!("{:?}", e).contains("database pool") => {
+                        attempt += 1;
+                        bump(&mut self.feat, "provision:pool-setup-retry");
+                        self.diag.push(format!("retry after {:?}", e).chars().take(300).collect());
+                        std::thread::sleep(std::time::Duration::from_millis(20 * attempt));
+                    }
                     _ => break r,
                 }
             };
@@ -595,7 +603,20 @@ pub fn exec(case: &Value, tag: &str) -> Value {
                 installed = true;
             }
         }
-        let res = run.exec_op(i, op);
+        let mut res = run.exec_op(i, op);
+        // A re-key takes its write lock by upgrading a deferred read transaction: SQLite answers SQLITE_BUSY at once (no busy
+        // wait) when any other connection holds the write lock — e.g. the pool's own background connection set-up, whose
+        // `PRAGMA auto_vacuum` runs in a write transaction.  The call fails cleanly; ordinary use retries it.  (Recorded, and
+        // the failed attempt must have changed nothing.)
+        let mut tries = 0;
+        while name == "rekey" && fault.is_none() && tries < 5 && res.get("err").is_some() && run.diag.last().map_or(false, |d| d.contains("database is locked")) {
+            tries += 1;
+            bump(&mut run.feat, "rekey:lost-write-lock-race:retried");
+            let d = run.dump_all();
+            if d != last { run.fail("rekey:busy:state-differs".into(), json!({"i": i, "dump": d, "before": last})); }
+            std::thread::sleep(std::time::Duration::from_millis(20));
+            res = run.exec_op(i, op);
+        }
         if let (Some(f), true) = (&fault, res.get("err").is_some()) { if installed { run.ctx = format!("{}:fault@{}", name, fault_desc(f)); } }
         let mut lock_ok = true;
         if st < run.stores.len() { lock_ok = run.lock_check(st); }
@@ -700,6 +721,7 @@ pub fn child_main(args: &[String]) {
     for (i, op) in case["ops"].as_array().cloned().unwrap_or_default().iter().enumerate() {
         let res = run.exec_op(i, op);
         let mut w = out.lock();
+        for d in run.diag.drain(..) { writeln!(w, "diag {} {}", i, d.replace('\n', " ")).ok(); }
         writeln!(w, "ack {} {}", i, res).ok();
         w.flush().ok();
     }
@@ -726,7 +748,7 @@ fn exec_kill(case: &Value, tag: &str) -> Value {
         line.clear();
         match reader.read_line(&mut line) {
             Ok(0) | Err(_) => break,
-            Ok(_) => { if line.starts_with("ready") { ready = true; } else if line.starts_with("ack ") { acks.push(line.trim().to_string()); } }
+            Ok(_) => { if line.starts_with("ready") { ready = true; } else if line.starts_with("ack ") { acks.push(line.trim().to_string()); } else if line.starts_with("diag ") { run.diag.push(line.trim().to_string()); } }
         }
     }
     std::thread::sleep(std::time::Duration::from_micros(case["delay_us"].as_u64().unwrap_or(0)));
@@ -735,6 +757,7 @@ fn exec_kill(case: &Value, tag: &str) -> Value {
     let mut rest = String::new();
     reader.read_to_string(&mut rest).ok();
     acks.extend(rest.lines().filter(|l| l.starts_with("ack ")).map(|l| l.trim().to_string()));
+    run.diag.extend(rest.lines().filter(|l| l.starts_with("diag ")).map(|l| l.trim().to_string()));
     std::fs::remove_file(&case_file).ok();
     let acked = acks.len().min(ops.len());
 
@@ -743,9 +766,24 @@ fn exec_kill(case: &Value, tag: &str) -> Value {
     let mut states = vec![refs0.clone()];
     let mut mids_of: Vec<Vec<Vec<RefSt>>> = vec![];
     let mut exp: Vec<Value> = vec![];
+    let ack_res: Vec<Value> = acks.iter().take(acked).map(|a| a.splitn(3, ' ').nth(2).and_then(|t| serde_json::from_str(t).ok()).unwrap_or(Value::Null)).collect();
+    let mut failed: Vec<usize> = vec![];
     for (i, op) in ops.iter().enumerate() {
         let (r, mids) = ref_step(states.last().unwrap(), &pools, i, op);
         for k in keys.iter_mut() { while k.len() <= i + 1 { k.push(Value::Null); } }
+        // an acknowledged re-key that lost the race for the write lock (SQLITE_BUSY on the upgrade of its deferred transaction,
+        // see `exec`) is a failed call: nothing happened, and the dump below still has to show exactly that
+        let busy = i < acked && r.get("err").is_none() && ack_res[i].get("err").is_some() && op["op"] == "rekey"
+            && run.diag.iter().any(|d| d.starts_with(&format!("diag {} ", i)) && d.contains("database is locked"));
+        if busy {
+            bump(&mut run.feat, "kill:acked-rekey-lost-write-lock-race");
+            failed.push(i);
+            let prev = states.last().unwrap().clone();
+            states.push(prev.clone());
+            mids_of.push(vec![prev]);
+            exp.push(ack_res[i].clone());
+            continue;
+        }
         if matches!(op["op"].as_str(), Some("rekey") | Some("provision_recreate")) && st_of(op) < keys.len() { keys[st_of(op)][i + 1] = json!({"method": op["method"], "pass": op["pass"]}); }
         states.push(mids.last().unwrap().clone());
         mids_of.push(mids);
@@ -753,8 +791,8 @@ fn exec_kill(case: &Value, tag: &str) -> Value {
     }
     let inflight = ops.get(acked).map(|o| sname(o, "op")).unwrap_or_else(|| "end".to_string());
     bump(&mut run.feat, &format!("kill:inflight:{}", inflight));
-    for (i, a) in acks.iter().enumerate().take(acked) {
-        let got: Value = a.splitn(3, ' ').nth(2).and_then(|t| serde_json::from_str(t).ok()).unwrap_or(Value::Null);
+    for i in 0..acked {
+        let got = ack_res[i].clone();
         if got != exp[i] { run.fail(format!("kill:ack-result-differs:{}", sname(&ops[i], "op")), json!({"i": i, "expected": exp[i], "got": got})); }
     }
     // candidates: the state after the acknowledged prefix, then the commit points of the call in flight
@@ -817,7 +855,7 @@ fn exec_kill(case: &Value, tag: &str) -> Value {
     run.close_all();
     for s in &run.stores { remove_files(&s.path); }
     json!({"out": {"prefix": label, "usable": usable}, "oracle": run.oracle, "feat": run.feat, "diag": run.diag,
-           "model_input": {"acked": acked, "observed": observed}})
+           "model_input": {"acked": acked, "observed": observed, "failed": failed}})
 }
 
 // =============================================================================================
@@ -888,7 +926,7 @@ fn random_call(r: &mut Rng, nprof: usize, fresh: &mut usize, has_other: bool, po
 }
 
 pub fn gen(r: &mut Rng, thorough: bool, count: Option<usize>) -> Vec<Value> {
-    let rounds = if thorough { 24 } else { 1 };
+    let rounds = if thorough { 120 } else { 3 };
     let mut out: Vec<Value> = vec![];
     let mut id = 0usize;
     let mut push = |out: &mut Vec<Value>, mut c: Value| { c["id"] = json!(id); id += 1; out.push(c); };
